@@ -21,7 +21,7 @@ func init() {
 		Rule: "per case a doctype-prefixed tag soup from a vocabulary that triggers the tree builder's insertion modes (tables, lists, formatting elements, select, template, raw-text and RCDATA elements, void elements, svg/math foreign content, stray end tags, attributes incl. xmlns, xmlns:x, prefixed and duplicate ones, comments everywhere incl. after </html>), depth up to 500 and width up to 5000 in the thorough tier -> xsel.ReadHtml; " +
 			"oracle: html.Parse on the same bytes walked recursively by the monitor (doctype skipped, local names after the prefix, attributes minus xmlns declarations) compared by parallel walk with the cursor tree plus the C10 structural invariants: same nesting/order, equal text and comment data, every name in no namespace, no namespace nodes, nothing skipped or duplicated. distinct_nontrivial = distinct DOM shape signatures",
 		Assumptions: []string{"names with more than one ':' are not generated (prefix stripping is then ambiguous)", "golang.org/x/net/html is the definition of the HTML5 tree (as the property states)"},
-		NCases:      func(tier string) int { return map[string]int{"quick": 3000, "thorough": 100000}[tier] },
+		NCases:      func(tier string) int { return map[string]int{"quick": 200000, "thorough": 2000000}[tier] },
 		Case:        c17Case,
 	})
 }
@@ -92,7 +92,9 @@ func domToDoc(n *html.Node, d *adoc.Doc, parent *adoc.Node) error {
 			e := d.AddElem(parent, "", localAfterPrefix(c.Data))
 			e.NoXMLNS = true
 			for _, a := range c.Attr {
-				if a.Key == "xmlns" || strings.HasPrefix(a.Key, "xmlns:") {
+				// xmlns declarations: plain ones, and the foreign-content form the tree
+				// builder reports with Namespace "xmlns" (xmlns:xlink on svg/math)
+				if a.Namespace == "xmlns" || (a.Namespace == "" && (a.Key == "xmlns" || strings.HasPrefix(a.Key, "xmlns:"))) {
 					continue
 				}
 				d.AddAttr(e, "", localAfterPrefix(a.Key), a.Val)
